@@ -46,6 +46,8 @@ type clusterCache struct {
 	hbone                   bool
 	proxyView               model.ProxyView
 	metadataCerts           *metadataCerts // metadata certificates of proxy
+	credentialSocketExist   bool           // proxy announced the credential SDS socket (selects the SDS source of DR TLS certs)
+	fileCredSocketExist     bool           // proxy announced the file-credential SDS socket (sds-files-grpc instead of sds-grpc)
 	endpointBuilder         *endpoints.EndpointBuilder
 
 	// service attributes
@@ -96,6 +98,10 @@ func (t *clusterCache) Key() any {
 	if t.metadataCerts != nil {
 		h.WriteString(t.metadataCerts.String())
 	}
+	h.Write(Separator)
+	h.WriteString(strconv.FormatBool(t.credentialSocketExist))
+	h.Write(Separator)
+	h.WriteString(strconv.FormatBool(t.fileCredSocketExist))
 	h.Write(Separator)
 
 	if t.service != nil {
@@ -207,6 +213,8 @@ func buildClusterKey(service *model.Service, port *model.Port, cb *ClusterBuilde
 		destinationRule:         dr,
 		envoyFilterKeys:         efKeys,
 		metadataCerts:           cb.metadataCerts,
+		credentialSocketExist:   cb.credentialSocketExist,
+		fileCredSocketExist:     cb.fileCredentialSocketExist,
 		peerAuthVersion:         cb.sidecarScope.AuthnPolicies.GetVersion(),
 		serviceAccounts:         cb.req.Push.ServiceAccounts(service.Hostname, service.Attributes.Namespace),
 		endpointBuilder:         eb,
